@@ -142,6 +142,22 @@ func (f *RedisKeyFilter) FilterCmdKey(cmd string, args [][]byte) ([][]byte, bool
 	// Unknown commands or unsupported layouts are passed through unchanged.
 	indexes, ok := CommandKeyIndexes(cmd, args)
 	if !ok || len(indexes) == 0 {
+		// SORT with an external BY/GET pattern has no complete key list (the pattern reads keys no
+		// argument names), but its source key and STORE destination are known: the command must
+		// not be forwarded when one of them is filtered out.
+		if strings.EqualFold(cmd, "sort") && len(args) > 0 {
+			keys := []string{string(args[0])}
+			for i := 1; i+1 < len(args); i++ {
+				if strings.EqualFold(string(args[i]), "store") {
+					keys = append(keys, string(args[i+1]))
+				}
+			}
+			for _, key := range keys {
+				if f.FilterKey(key) || f.FilterSlot(key) {
+					return args, true
+				}
+			}
+		}
 		return args, false
 	}
 
